@@ -1,5 +1,5 @@
 SPECIFICATION Spec
-CONSTANTS Fams = {"chr","str","cat"}
+CONSTANTS Fams = {"chr","str","cat","seq"}
  Variant = "ok"
  Emit = FALSE
  Small = TRUE
